@@ -158,6 +158,31 @@ def resolveImaginary (z : ZoneOps) (w : Wall) : R Wall := do
   let old ← z.utcoffset { wall := w.wall - 86400, fold := false }
   pure { wall := w.wall + (curr - old), fold := false }
 
+/-- `datetime_exists(dt, tz=None)` / `datetime_ambiguous(dt, tz=None)` with both arguments as the code
+    takes them: `dtZone` = the zone attached to `dt` (`none` for a naive datetime), `tzArg` = the
+    explicit `tz` argument.  The explicit zone wins; with neither, `ValueError`.  In either case only
+    the wall reading and fold of `dt` are used (`dt.replace(tzinfo=None)` / `dt.replace(tzinfo=tz)`). -/
+def resolveZoneArg (dtZone tzArg : Option ZoneOps) : R ZoneOps :=
+  match tzArg with
+  | some z => .ok z
+  | none => match dtZone with
+    | some z => .ok z
+    | none => .error .ValueError
+
+def datetimeExistsArgs (dtZone tzArg : Option ZoneOps) (w : Wall) : R Bool := do
+  let z ← resolveZoneArg dtZone tzArg
+  datetimeExists z w
+
+def datetimeAmbiguousArgs (dtZone tzArg : Option ZoneOps) (w : Wall) : R Bool := do
+  let z ← resolveZoneArg dtZone tzArg
+  datetimeAmbiguous z w
+
+/-- `resolve_imaginary(dt)`: a naive datetime is returned unchanged -/
+def resolveImaginaryArgs (dtZone : Option ZoneOps) (w : Wall) : R Wall :=
+  match dtZone with
+  | none => .ok w
+  | some z => resolveImaginary z w
+
 /-! ### fixed zones -/
 
 /-- `tzutc` is `tzoffset(_, 0)`; sub-minute offsets are kept (Python ≥ 3.6) -/
